@@ -34,12 +34,20 @@ def u_table(dtype: str, seed: int = 0):
     if dt.kind == "b":
         return rot(U_BOOL, seed)
     if dt.kind == "u":
+        if dt.itemsize == 1:
+            return rot((200, 1, 100, 2, 64, 8, 32, 128, 3, 5, 6, 7), seed)
         return rot(U_UNSIGNED, seed)
     if dt.kind == "i":
         if dtype == "i8big":
             return tuple((1 << 54) * np.sign(u) + u * 3 + 1 for u in rot(U_SIGNED, seed))
         if dt.itemsize == 1:
-            return tuple(u for u in rot((4, -1, 16, 2, -64, 8, 32, -128 + 1, 1, -3, 5, -7), seed))
+            # large magnitudes first: a sum of two of them does not fit the input width
+            return tuple(u for u in rot((100, -1, 90, 2, -100, 64, 32, -127, 1, -3, 5, -7), seed))
+        if dt.itemsize == 2:
+            return tuple(u for u in rot((30000, -1, 20000, 2, -30000, 8, 32, -128, 1024, -256, 512, 2048), seed))
+        if dt.itemsize == 4 and dtype != "i8big":
+            return tuple(u for u in rot((2_000_000_000, -1, 1_500_000_000, 2, -2_000_000_000, 8, 32, -128,
+                                         1024, -256, 512, 2048), seed))
         return rot(U_SIGNED, seed)
     if dt.kind == "f":
         sc = 0.5 if seed % 2 else 1.0
